@@ -67,7 +67,7 @@ func (a1 jsonList) diff(n JsonNode, path path, metadata []Metadata, strategy pat
 		default:
 			e = DiffElement{
 				Path:      path.clone(),
-				OldValues: nodeList(a1),
+				OldValues: nodeList(jsonArray(a1)),
 				NewValues: nodeList(n),
 			}
 		}
@@ -78,7 +78,7 @@ func (a1 jsonList) diff(n JsonNode, path path, metadata []Metadata, strategy pat
 		if !a1.Equals(a2, metadata...) {
 			e := DiffElement{
 				Path:      path.prependMetadataMerge(),
-				NewValues: nodeList(n),
+				NewValues: nodeList(jsonArray(a2)),
 			}
 			return append(d, e)
 		}
@@ -96,9 +96,10 @@ func (a1 jsonList) diff(n JsonNode, path path, metadata []Metadata, strategy pat
 		a2Has := i < len(a2)
 		subPath := append(path, jsonNumber(i))
 		if a1Has && a2Has {
-			n1 := dispatch(a1[i], metadata)
-			n2 := dispatch(a2[i], metadata)
-			subDiff := n1.diff(n2, subPath, metadata, strategy)
+			// Arrays dispatch themselves. Do not hand a list, set or
+			// multiset typed value to the diff of a non-array element:
+			// it would end up in the diff and in patched documents.
+			subDiff := a1[i].diff(a2[i], subPath, metadata, strategy)
 			d = append(d, subDiff...)
 		}
 		if a1Has && !a2Has {
